@@ -341,12 +341,12 @@ impl Color {
 
     /// Parse the RGBA representation (`0xRRGGBBAA`) of an u32 into a Color.
     pub fn from_u32(n: u32) -> Color {
-        let a = n >> 24;
-        let r = (n >> 16) & 0xff;
-        let g = (n >> 8) & 0xff;
-        let b = n & 0xff;
+        let r = n >> 24;
+        let g = (n >> 16) & 0xff;
+        let b = (n >> 8) & 0xff;
+        let a = n & 0xff;
 
-        Color::from_rgba(r as u8, g as u8, b as u8, a as f64)
+        Color::from_rgba(r as u8, g as u8, b as u8, a as f64 / 255.0)
     }
 
     /// Get XYZ coordinates according to the CIE 1931 color space.
